@@ -30,7 +30,7 @@ func refDigestMain(args []string) {
 			for _, la := range w.lookaheads() {
 				for _, narrow := range []bool{false, true} {
 					p := w.build(buildOpts{lookahead: la, generated: gen, narrow: narrow})
-					add(p.String())
+					add(call(func() (interface{}, error) { s := p.String(); return &s, nil }).desc())
 					for _, d := range w.docs {
 						texts := []string{d.text}
 						if d.unitLen > 0 {
